@@ -2,7 +2,7 @@
 # development aid (not registered in MANIFEST): builds the checker from a copy of mc/ against a clean scratch
 # worktree of /repo's HEAD (so it can be used while a seeded patch is applied to /repo) and runs one check
 # with evidence/replays written to /tmp/mcdev/out. usage: dev.sh <Cxx> quick|thorough ; dev.sh clean
-export GOFLAGS=-mod=mod GOPROXY=off GOSUMDB=off GOTOOLCHAIN=local
+export GOFLAGS=-mod=mod GOPROXY=off GOSUMDB=off GOTOOLCHAIN=local GOGC=${GOGC:-300} GOMEMLIMIT=${GOMEMLIMIT:-24GiB}
 D=/tmp/mcdev
 if [ "$1" = clean ]; then git -C /repo worktree remove --force $D/repo 2>/dev/null; rm -rf $D; git -C /repo worktree prune; exit 0; fi
 mkdir -p $D/out/evidence $D/out/replays
